@@ -317,6 +317,26 @@ pub fn splice(inner: &str, calls: &[ReplCall]) -> String {
   out
 }
 
+/// Are all replacement bounds in the property's domain (start <= end, each on
+/// a char boundary of the inner text or beyond its end)?
+pub fn in_domain(spec: &TreeSpec) -> bool {
+  match spec {
+    TreeSpec::Concat { children, .. } => children.iter().all(in_domain),
+    TreeSpec::Replace { inner, calls } => {
+      if !in_domain(inner) {
+        return false;
+      }
+      let text = content(inner).0;
+      let ok = |p: u32| (p as usize) >= text.len() || text.is_char_boundary(p as usize);
+      calls.iter().all(|c| c.start <= c.end && ok(c.start) && ok(c.end))
+    }
+    TreeSpec::Cached { inner, .. } | TreeSpec::User { inner, .. } | TreeSpec::Boxed { inner } => {
+      in_domain(inner)
+    }
+    _ => true,
+  }
+}
+
 /// Expected `(source(), buffer())` of a tree, computed from the spec alone.
 pub fn content(spec: &TreeSpec) -> (String, Vec<u8>) {
   match spec {
